@@ -80,6 +80,13 @@ def gen_case(rng, max_ops=8, type_changing=False):
     ops = []
     for _ in range(rng.randint(1, max_ops)):
         ops.append(gen_op(rng, type_changing))
+    pairs = [(i, j) for i in range(ncols) for j in range(ncols) if i < j and kinds[i] != kinds[j]]
+    if pairs and rng.random() < (0.2 if type_changing else 0.06):
+        # two columns of different kinds exchange their data types by plain assignments with no consultation in
+        # between: labels and the multiset of dtypes are as remembered, only the positions differ
+        i, j = rng.choice(pairs)
+        ops = [{"op": "consult"}, {"op": "df_set", "col": names[i], "kind": kinds[j]},
+               {"op": "df_set", "col": names[j], "kind": kinds[i]}, {"op": "consult"}] + ops
     return {"names": names, "kinds": kinds, "nrows": nrows, "units": units, "strict": rng.random() < 0.9,
             "vseed": rng.randint(0, 10**6), "ops": ops}
 
